@@ -5,7 +5,7 @@ from collections import deque
 
 import common
 from common import map_call_kind
-from c01 import r4 as key_agreement
+from c01 import r4 as key_agreement, r7 as shard_agreement
 
 LEVEL = 'other'
 EXPLANATION = (
@@ -85,6 +85,7 @@ def run(ctx):
     R4 = rep.rule('C02.R4', 'take/remove/clear name exactly what they destroy', floor=6)
     R5 = rep.rule('C02.R5', 'the two AssetMap impls use the same HashMap operation per trait method', floor=3)
     R6 = rep.rule('C01.R4', 'key hash/eq use both id and type (shared with C01)', floor=7)
+    R7 = rep.rule('C01.R7', 'take/remove (get_shard_mut) look in the shard that get/insert (get_shard) use (shared with C01)', floor=2)
     for cfg, F in ctx.cfgs():
         hr = 'hot-reloading' in ctx.cfg_features[cfg]
         r1(R1, cfg, F, hr)
@@ -93,7 +94,8 @@ def run(ctx):
         r4(R4, cfg, F)
         r5(R5, cfg, F)
         key_agreement(R6, cfg, F)
-        for r in (R1, R2, R3, R4, R5, R6):
+        shard_agreement(R7, cfg, F)
+        for r in (R1, R2, R3, R4, R5, R6, R7):
             r.finish_cfg(cfg)
 
 
